@@ -111,8 +111,9 @@ def _map_sources(v):
         return [v.func.value.id]
     if isinstance(v, ast.Call):
         d = dotted(v.func) or ''
-        if (d in ('np.array', 'np.asarray', 'list', 'tuple', 'np.copy') or d in TNAMES) \
-                and v.args:
+        if (d in ('np.array', 'np.asarray', 'list', 'tuple', 'np.copy', 'np.nan_to_num',
+                  'np.clip', 'np.maximum', 'np.minimum', 'np.abs', 'np.where', 'np.exp',
+                  'np.log', 'np.float64', 'np.atleast_1d') or d in TNAMES) and v.args:
             return _map_sources(v.args[0])
         if d == 'map' and len(v.args) == 2:
             return _map_sources(v.args[1])
